@@ -3,15 +3,34 @@
    abstract "last relevant setter wins" specification it is proved to refine (EntryProofs.v).
    Definitions only.  Constants come from Gen/EntryConsts.v (regenerated from the tree on every run).
 
-   The parameter [lg : bool] ("legacy") selects, in exactly five places, the behaviour of the tree
-   BEFORE the fixes fixes/C14-*.diff; [lg = false] is the behaviour of the fixed tree and is what
-   the extracted runner executes.  The legacy variants exist so that the findings can be stated in
-   Coq (Properties_C14.v, theorems *_legacy_refuted).
+   Modelled calls (archive_entry_ prefix omitted):
+     set_{a,birth,c,m}time unset_{a,birth,c,m}time; set_uid set_gid set_ino set_ino64 set_size
+     unset_size set_nlink; set_mode set_perm set_filetype; acl_add_entry for the three entries that
+     live in the mode (user::, group::, other::); set_dev set_devmajor set_devminor set_rdev
+     set_rdevmajor set_rdevminor; set_symlink_type; set_is_data_encrypted set_is_metadata_encrypted;
+     {set,set_*_utf8,copy,copy_*_w,update_*_utf8,_copy_*_l} for hardlink, symlink, link;
+     set_link_to_hardlink set_link_to_symlink; the same six variants for pathname, uname, gname;
+     copy_sourcepath(_w); copy_fflags_text(_w) (text only); sparse_add_entry sparse_clear;
+     xattr_add_entry xattr_clear; copy_stat; clear; clone;
+   and every getter of these fields incl. the *_is_set ones, sparse_reset/next, xattr_reset/next,
+   archive_entry_stat (with its cache).  Not modelled: other ACL entries, fflags bitmaps and their
+   text conversion, mac_metadata, digests, strmode, the *_l getters, copy_bhfi.
+
+   The parameter [lg : bool] ("legacy") selects, in four places (do_hardlink, split, with_mode_acl,
+   clone), the behaviour of the tree BEFORE the fixes fixes/C14-*.diff; [lg = false] is the
+   behaviour of the fixed tree and is what the extracted runner executes.  The legacy variants
+   exist so that the findings can be stated in Coq (Properties_C14.v, theorems *_legacy_*_refuted).
+   (A fifth finding, the dangling iterator left by archive_entry_sparse_reset, is a memory-safety
+   matter below the level of this model; the harness reports it.)
 
    Strings: every string field is an [option bytes] (None = NULL).  The three stored forms of an
-   archive_mstring (mbs / wcs / utf8) and their lazy conversions are NOT modelled: in the C.UTF-8
-   locale and for valid, NFC-stable UTF-8 input all setter variants store the same bytes and all
-   views return them; the correspondence harness reports any disagreement of the views. *)
+   archive_mstring (mbs / wcs / utf8) and their lazy conversions are NOT part of the entry model: in
+   the C.UTF-8 locale and for valid, NFC-stable UTF-8 input all setter variants store the same bytes
+   and all views return them; the correspondence harness reports any disagreement of the views.
+   (A separate small model of archive_mstring at the end of this file carries the views-agree theorem.)
+
+   Platform: glibc x86-64 (64-bit time_t / long / dev_t / ino_t / nlink_t, 32-bit mode_t / uid_t /
+   gid_t, gnu_dev_major / minor / makedev bit layout, struct stat with st_?tim.tv_nsec, no birthtime). *)
 From Coq Require Import List ZArith Bool.
 From LA Require Import Base.Val Gen.EntryConsts.
 Import ListNotations.
